@@ -49,10 +49,12 @@ broadcast use {from_self_is_identity, from_self_obeys};
 
 // ---- poll protocol shims ---------------------------------------------------------------------------------------
 pub struct Context { pub armed: Ghost<bool> }
-pub struct GossipSubscription { pub queue: Ghost<Seq<Result<Vec<u8>, RecvErr>>>, pub closed: Ghost<bool> }
-impl GossipSubscription {
+// tokio_stream BroadcastStream: contract-only shim over a ghost queue of received items
+pub struct BroadcastStream<T> { pub queue: Ghost<Seq<Result<T, RecvErr>>>, pub closed: Ghost<bool> }
+pub type BroadcastStreamRecvError = RecvErr;
+impl<T> BroadcastStream<T> {
     #[verifier::external_body]
-    pub fn poll_next_unpin(&mut self, cx: &mut Context) -> (r: Poll<Option<Result<Vec<u8>, RecvErr>>>)
+    pub fn poll_next_unpin(&mut self, cx: &mut Context) -> (r: Poll<Option<Result<T, RecvErr>>>)
         ensures
             final(self).closed@ == old(self).closed@,
             r is Pending ==> final(cx).armed@ && final(self).queue@ == old(self).queue@ && old(self).queue@.len() == 0,
@@ -60,6 +62,20 @@ impl GossipSubscription {
                 && final(self).queue@ == old(self).queue@.skip(1) && final(cx).armed@ == old(cx).armed@,
             r is Ready && r->Ready_0 is None ==> old(self).queue@.len() == 0 && old(self).closed@ && final(self).queue@ == old(self).queue@ && final(cx).armed@ == old(cx).armed@,
     { unimplemented!() }
+}
+pub struct TopicDropGuard { pub g: u8 }
+
+// futures_util::StreamExt::poll_next_unpin(self, cx) is Pin::new(self).poll_next(cx) (definition); the callee is the
+// extracted, verified GossipSubscription::poll_next
+impl GossipSubscription {
+    pub fn poll_next_unpin(&mut self, cx: &mut Context) -> (r: Poll<Option<Result<Vec<u8>, RecvErr>>>)
+        ensures
+            final(self).from_topic_rx.closed@ == old(self).from_topic_rx.closed@,
+            r is Pending ==> final(cx).armed@ && final(self).from_topic_rx.queue@ == old(self).from_topic_rx.queue@ && old(self).from_topic_rx.queue@.len() == 0,
+            r is Ready && r->Ready_0 is Some ==> old(self).from_topic_rx.queue@.len() > 0 && r->Ready_0->0 == old(self).from_topic_rx.queue@[0]
+                && final(self).from_topic_rx.queue@ == old(self).from_topic_rx.queue@.skip(1) && final(cx).armed@ == old(cx).armed@,
+            r is Ready && r->Ready_0 is None ==> old(self).from_topic_rx.queue@.len() == 0 && old(self).from_topic_rx.closed@ && final(self).from_topic_rx.queue@ == old(self).from_topic_rx.queue@ && final(cx).armed@ == old(cx).armed@,
+    { self.poll_next(cx) }
 }
 
 // ---- specification: a wrapped message is authentic --------------------------------------------------------------
